@@ -326,9 +326,14 @@ where
         }
         for &t in &ts {
             let t8 = dm.scale(t);
-            let cands: Vec<(usize, usize)> = pl.threshold(&scores, t8).into_iter().map(|c| (c.row, c.col)).collect();
+            let mut selected = vec![false; (hi - lo) * 32];
+            for c in pl.threshold(&scores, t8) {
+                if c.row < hi - lo && c.col < 32 {
+                    selected[c.row * 32 + c.col] = true;
+                }
+            }
             for &p in &in_block {
-                if real[p] >= t && !cands.contains(&(p % r - lo, p / r)) {
+                if real[p] >= t && !selected[(p % r - lo) * 32 + p / r] {
                     return Some((
                         "pre-filter loses a hit".into(),
                         format!(
@@ -548,12 +553,13 @@ pub fn run(ctx: &mut Ctx, rep: &mut Report) {
     if ctx.wants("wide") {
         rep.space(
             "wide",
-            "wide matrices M in {5,8,16,30,64} (thorough + {12,100,254,300}) x 3 cell flavours whose rounded-up row maxima sum past 255, and log-odds matrices from a count menu (M in {6,15,20}); \
+            "wide matrices M in {5,8,16,30,64,255,256,257} (thorough + {12,100,254,300,511,512,513}) x 3 cell flavours whose rounded-up row maxima sum past 255, and log-odds matrices from a count menu (M in {6,15,20}); \
              sequence = consensus, anti-consensus, every single-substitution neighbour of the consensus (wildcard included) concatenated; same 9 kernels; protein: 5 kernels on M in {3,8,40}",
         );
-        let mut widths = vec![5usize, 8, 16, 30, 64];
+        // 255/256/257: the number of rows reaches the range of the byte (headroom = 255 - M saturates at 0)
+        let mut widths = vec![5usize, 8, 16, 30, 64, 255, 256, 257];
         if !ctx.quick() {
-            widths.extend([12, 100, 254, 300]);
+            widths.extend([12, 100, 254, 300, 511, 512, 513]);
         }
         for &m in &widths {
             for fl in 0..3 {
